@@ -28,6 +28,7 @@ def dispatch (line : String) : Sx :=
     | "sbx" => Wire.Sandbox.handle args
     | "undef" => Wire.Undefined.handle args
     | "lex" => Wire.Lex.handle args
+    | "lex-plain" => Wire.Lex.handlePlain args
     | "filt" => Wire.FiltColl.handle args
     | "native" => Wire.Native.handle args
     | "path-split" => Wire.Path.handleSplit args
